@@ -1,10 +1,19 @@
 /-
-C27 — Resource values are formatted with Android's meaning.   (first stage; see below)
+C27 — Resource values are formatted with Android's meaning.
+Property theorems only (lemmas: AgVerif/Proof/ResValue.lean).
+
+Model: AgVerif.ResValue (`complexToFloat`, `format_value`, `get_resource_dimen`,
+`get_resource_color`, with fixes/C27-signed-mantissa-exact-radix.diff), computing with the
+constants regenerated from the working tree (AgVerif.Gen.ResValues).
+Spec: AgVerif.Spec.ResValue (ResourceTypes.h `Res_value`, android.util.TypedValue).
+All values are exact: a float is (-1)^neg · num / den.  Theorems quantify over every `data`
+(all naturals, in particular all 2^32 words) and every type.
 -/
-import AgVerif.Model.ResValue
-import AgVerif.Spec.ResValue
+import AgVerif.Proof.ResValue
 namespace AgVerif.C27
 open AgVerif.ResValue AgVerif.Spec.ResValue AgVerif.Gen.ResValues
+
+/-! ### the generated tables are Android's -/
 
 /-- The generated `TYPE_*` constants are Android's `Res_value` data types. -/
 theorem type_table_android : typeTable = androidTypes := by decide
@@ -12,5 +21,248 @@ theorem type_table_android : typeTable = androidTypes := by decide
 /-- RADIX_MULTS are exactly 2^-8, 2^-15, 2^-23, 2^-31 (MANTISSA_MULT · 2^-{0,7,15,23}). -/
 theorem radix_exact :
     radixMults = [(1, 2 ^ 8), (1, 2 ^ 15), (1, 2 ^ 23), (1, 2 ^ 31)] := by decide
+
+/-- The unit tables and the unit mask are Android's. -/
+theorem units_android :
+    Gen.ResValues.dimensionUnits = Spec.ResValue.dimensionUnits
+    ∧ Gen.ResValues.fractionUnits = Spec.ResValue.fractionUnits ∧ complexUnitMask = 15 := by decide
+
+/-- Every type (all naturals, not only the named ones) takes the branch of `format_value` that
+    Android's `coerceToString` takes. -/
+theorem dispatch_total (t : Nat) : branch t = kind t := rfl
+
+/-! ### complex values: dimensions and fractions -/
+
+/-- `complexToFloat` returns, for every data word, the signed 24-bit mantissa over 2^shift
+    (as the unreduced fraction mantissa·2^8 / (2^shift·2^8)), negative exactly when the mantissa is. -/
+theorem complex_value (d : Nat) :
+    complexToFloat d
+      = some (.fin (decide (complexNum d < 0)) ((complexNum d).natAbs * 2 ^ 8) (complexDen d * 2 ^ 8)) :=
+  complexToFloat_eq d
+
+/-- Soundness of the exact-rational reading of the binary64 computation: the numerators that
+    occur (also after `* 100`) fit the 53-bit significand and the exponents are tiny. -/
+theorem complex_binary64 (d : Nat) :
+    Binary64Exact ((complexNum d).natAbs * 2 ^ 8) (radixShift (d / 2 ^ 4 % 4) + 8)
+    ∧ Binary64Exact ((complexNum d).natAbs * 2 ^ 8 * 100) (radixShift (d / 2 ^ 4 % 4) + 8) := by
+  have hb := mantissa_bound d
+  have hs : radixShift (d / 2 ^ 4 % 4) ≤ 23 := by
+    unfold radixShift; split <;> omega
+  unfold Binary64Exact complexNum
+  omega
+
+/-- `%f` depends on the value only, not on the fraction that represents it. -/
+theorem fmtF6_value_only (neg : Bool) (n d k : Nat) (hk : 0 < k) :
+    fmtF6 neg (n * k) (d * k) = fmtF6 neg n d :=
+  fmtF6_scale neg n d k hk
+
+/-- `%f` rounds to a nearest multiple of 10^-6 … -/
+theorem fmtF6_nearest (n d : Nat) (hd : 0 < d) :
+    2 * (n * 1000000 - roundHalfEven (n * 1000000) d * d) ≤ d
+    ∧ 2 * (roundHalfEven (n * 1000000) d * d - n * 1000000) ≤ d :=
+  roundHalfEven_nearest (n * 1000000) d hd
+
+/-- … and ties go to the even digit. -/
+theorem fmtF6_ties_even (n d : Nat) (h : 2 * (n * 1000000 % d) = d) :
+    roundHalfEven (n * 1000000) d % 2 = 0 :=
+  roundHalfEven_tie _ _ h
+
+/-- The design's `complex_spec`: a dimension whose unit Android defines is printed as the AOSP
+    value mantissa / 2^shift, rounded to six decimals, followed by Android's unit string. -/
+theorem complex_spec (lookup : Nat → String) (d : Nat) (u : String)
+    (hu : Spec.ResValue.dimensionUnits[unit d]? = some u) :
+    formatValue lookup TYPE_DIMENSION d
+      = .ok (fmtF6 (decide (complexNum d < 0)) (complexNum d).natAbs (complexDen d) ++ u) := by
+  have hb : branch TYPE_DIMENSION = .dimension := by decide
+  unfold formatValue complexString
+  rw [hb]
+  simp only
+  rw [complexToFloat_eq, unit_index]
+  have : Gen.ResValues.dimensionUnits = Spec.ResValue.dimensionUnits := units_android.1
+  rw [this]
+  unfold unit at hu
+  rw [hu]
+  simp only [fmtF]
+  rw [fmtF6_scale _ _ _ _ (by decide)]
+  rfl
+
+/-- Fractions: the AOSP value times 100, six decimals, `%` or `%p`. -/
+theorem fraction_spec (lookup : Nat → String) (d : Nat) (u : String)
+    (hu : Spec.ResValue.fractionUnits[unit d]? = some u) :
+    formatValue lookup TYPE_FRACTION d
+      = .ok (fmtF6 (decide (complexNum d < 0)) ((complexNum d).natAbs * 100) (complexDen d) ++ u) := by
+  have hb : branch TYPE_FRACTION = .fraction := by decide
+  unfold formatValue complexString
+  rw [hb]
+  simp only
+  rw [complexToFloat_eq, unit_index]
+  have : Gen.ResValues.fractionUnits = Spec.ResValue.fractionUnits := units_android.2.1
+  rw [this]
+  unfold unit at hu
+  rw [hu]
+  simp only [Option.map, times100, fmtF]
+  have : (mantissa d).natAbs * 2 ^ 8 * 100 = (mantissa d).natAbs * 100 * 2 ^ 8 := by
+    rw [Nat.mul_assoc, Nat.mul_comm (2 ^ 8), ← Nat.mul_assoc]
+  rw [this, fmtF6_scale _ _ _ _ (by decide)]
+  rfl
+
+/-- Unit nibbles Android does not define are an `IndexError` (outside the property). -/
+theorem complex_undefined_unit (lookup : Nat → String) (d : Nat) :
+    (Spec.ResValue.dimensionUnits[unit d]? = none → formatValue lookup TYPE_DIMENSION d = .error .index)
+    ∧ (Spec.ResValue.fractionUnits[unit d]? = none → formatValue lookup TYPE_FRACTION d = .error .index) := by
+  have hb : branch TYPE_DIMENSION = .dimension := by decide
+  have hb' : branch TYPE_FRACTION = .fraction := by decide
+  have e1 : Gen.ResValues.dimensionUnits = Spec.ResValue.dimensionUnits := units_android.1
+  have e2 : Gen.ResValues.fractionUnits = Spec.ResValue.fractionUnits := units_android.2.1
+  unfold unit
+  constructor <;> intro hu <;> unfold formatValue complexString
+  · rw [hb]; simp only; rw [complexToFloat_eq, unit_index, e1, hu]
+  · rw [hb']; simp only; rw [complexToFloat_eq, unit_index, e2, hu]; rfl
+
+/-- `get_resource_dimen` reports the same exact value and unit (the code prints the float's repr). -/
+theorem dimen_getter_spec (d : Nat) (u : String) (hu : Spec.ResValue.dimensionUnits[unit d]? = some u) :
+    getResourceDimen d
+      = .value (.fin (decide (complexNum d < 0)) ((complexNum d).natAbs * 2 ^ 8) (complexDen d * 2 ^ 8)) u := by
+  unfold getResourceDimen
+  rw [complexToFloat_eq, unit_index]
+  have : Gen.ResValues.dimensionUnits = Spec.ResValue.dimensionUnits := units_android.1
+  rw [this]
+  unfold unit at hu
+  rw [hu]
+  rfl
+
+/-! ### integers, booleans, colours, references, strings, floats -/
+
+/-- The design's `int_dec_signed`: `fmt_int` is the two's-complement reading of the 32-bit word. -/
+theorem int_dec_signed (d : Nat) (h : d < 2 ^ 32) :
+    fmtInt d = int32 d ∧ int32 d = (BitVec.ofNat 32 d).toInt := by
+  constructor
+  · unfold fmtInt int32
+    have : 0x7FFFFFFF &&& d = d % 2 ^ 31 := by
+      rw [Nat.and_comm]; simpa using AgVerif.Bits.and_mask d 31
+    rw [this]
+    simp only
+    split <;> split <;> omega
+  · unfold int32
+    rw [BitVec.toInt_eq_toNat_cond]
+    simp only [BitVec.toNat_ofNat]
+    split <;> split <;> omega
+
+/-- Every type in FIRST_INT..LAST_INT that is not hex, boolean or a colour prints that signed number. -/
+theorem int_dec_rendering (lookup : Nat → String) (t d : Nat) (hk : kind t = .intDec) :
+    formatValue lookup t d = .ok (toString (fmtInt d)) := by
+  unfold formatValue; rw [dispatch_total, hk]
+
+/-- The design's `android_prefix_iff`: the `android:` prefix appears exactly for package id 1. -/
+theorem android_prefix_iff (d : Nat) : fmtPackage d = "android:" ↔ isFramework d := by
+  unfold fmtPackage isFramework
+  rw [AgVerif.Bits.shr]
+  by_cases h : d / 2 ^ 24 = 1
+  · simp [h]
+  · simp only [h, if_false, iff_false]; decide
+
+theorem reference_rendering (lookup : Nat → String) (d : Nat) :
+    formatValue lookup TYPE_REFERENCE d = .ok ("@" ++ fmtPackage d ++ hexW true 8 d) := rfl
+
+theorem attribute_rendering (lookup : Nat → String) (d : Nat) :
+    formatValue lookup TYPE_ATTRIBUTE d = .ok ("?" ++ fmtPackage d ++ hexW true 8 d) := rfl
+
+theorem hex_rendering (lookup : Nat → String) (d : Nat) :
+    formatValue lookup TYPE_INT_HEX d = .ok ("0x" ++ hexW true 8 d) := rfl
+
+theorem color_rendering (lookup : Nat → String) (t d : Nat) (hk : kind t = .color) :
+    formatValue lookup t d = .ok ("#" ++ hexW true 8 d) := by
+  unfold formatValue; rw [dispatch_total, hk]
+
+theorem boolean_rendering (lookup : Nat → String) (d : Nat) :
+    formatValue lookup TYPE_INT_BOOLEAN d = .ok (if d = 0 then "false" else "true") := rfl
+
+theorem string_rendering (lookup : Nat → String) (d : Nat) :
+    formatValue lookup TYPE_STRING d = .ok (lookup d) := rfl
+
+/-- The eight characters printed for a 32-bit word are its eight base-16 digits, most
+    significant first: they have the value `d`, and each is a digit below 16. -/
+theorem hex8_digits (d : Nat) (h : d < 2 ^ 32) :
+    padZeros 8 (hexDigits d) = fixedDigits 8 d ∧ (fixedDigits 8 d).length = 8
+    ∧ hexVal (fixedDigits 8 d) = d ∧ ∀ y ∈ fixedDigits 8 d, y < 16 := by
+  refine ⟨padZeros_hexDigits 8 d (by decide) (by omega), fixedDigits_length 8 d, ?_, fixedDigits_lt 8 d⟩
+  rw [hexVal_fixedDigits]; omega
+
+/-- digit → character tables of `%X` and `{:x}` -/
+theorem hex_chars :
+    (List.range 16).map (hexChar true) = "0123456789ABCDEF".toList
+    ∧ (List.range 16).map (hexChar false) = "0123456789abcdef".toList := by decide +kernel
+
+/-- `TYPE_FLOAT`: for every 32-bit word that is not an infinity or NaN the printed value is the
+    IEEE-754 binary32 value of the bits. -/
+theorem float_bits_ieee (lookup : Nat → String) (d : Nat) (h : d < 2 ^ 32) (s : Bool) (n k : Nat)
+    (hv : binary32 d = some (s, n, k)) :
+    formatValue lookup TYPE_FLOAT d = .ok (fmtF6 s n k) := by
+  have hb : branch TYPE_FLOAT = .float := by decide
+  unfold formatValue
+  rw [hb]
+  simp only
+  rw [if_pos h]
+  unfold floatBits binary32 at *
+  have e1 : (d >>> 31) &&& 1 = d / 2 ^ 31 % 2 := by
+    rw [AgVerif.Bits.shr]; exact AgVerif.Bits.and_mask (d / 2 ^ 31) 1
+  have e2 : (d >>> 23) &&& 0xFF = d / 2 ^ 23 % 256 := by
+    rw [AgVerif.Bits.shr, AgVerif.Bits.and_FF]
+  have e3 : d &&& 0x7FFFFF = d % 2 ^ 23 := by simpa using AgVerif.Bits.and_mask d 23
+  simp only [e1, e2, e3] at *
+  split at hv
+  · simp at hv
+  · rename_i h255
+    rw [if_neg h255]
+    split at hv
+    · rename_i h0; rw [if_pos h0]; simp only [Option.some.injEq, Prod.mk.injEq] at hv; obtain ⟨rfl, rfl, rfl⟩ := hv; simp only [fmtF]
+    · rename_i h0
+      rw [if_neg h0]
+      split at hv
+      · rename_i h150; rw [if_pos h150]; simp only [Option.some.injEq, Prod.mk.injEq] at hv; obtain ⟨rfl, rfl, rfl⟩ := hv; simp only [fmtF]
+      · rename_i h150; rw [if_neg h150]; simp only [Option.some.injEq, Prod.mk.injEq] at hv; obtain ⟨rfl, rfl, rfl⟩ := hv; simp only [fmtF]
+
+/-- `get_resource_color` prints the four bytes of the word, most significant first. -/
+theorem color_getter_bytes (d : Nat) :
+    getResourceColor d
+      = "#" ++ hexW false 2 (d / 2 ^ 24 % 256) ++ hexW false 2 (d / 2 ^ 16 % 256)
+          ++ hexW false 2 (d / 2 ^ 8 % 256) ++ hexW false 2 (d % 256) := by
+  unfold getResourceColor
+  simp only [AgVerif.Bits.shr, AgVerif.Bits.and_FF]
+
+/-- Tie to the source: the integer and string constants of `complexToFloat`, `format_value`,
+    `get_resource_dimen` and `get_resource_color`, regenerated from the working tree, are the ones
+    the model was transliterated from (masks, shifts, format strings). -/
+theorem source_constants :
+    complexToFloatConsts = [.inl 0xFFFFFF00, .inl 0x80000000, .inl 0x100000000, .inl 4, .inl 3]
+    ∧ formatValueConsts
+      = [.inr "<string>", .inr "android:", .inl 24, .inl 1, .inr "", .inl 0x7FFFFFFF, .inl 0x80000000,
+         .inl 0x7FFFFFFF, .inr "?{}{:08X}", .inr "@{}{:08X}", .inr "%f", .inr "=f", .inr "=L", .inl 0,
+         .inr "0x%08X", .inl 0, .inr "false", .inr "true", .inr "{:f}{}", .inr "{:f}{}", .inl 100,
+         .inr "#%08X", .inr "%d", .inr "<0x{:X}, type 0x{:02X}>"]
+    ∧ getResourceDimenConsts = [.inr "{}{}", .inr "Out of range dimension unit index for {}: {}"]
+    ∧ getResourceColorConsts
+      = [.inr "#{:02x}{:02x}{:02x}{:02x}", .inl 24, .inl 0xFF, .inl 16, .inl 0xFF, .inl 8, .inl 0xFF,
+         .inl 0xFF] := by
+  decide
+
+/-! ### non-vacuity and landmarks -/
+
+-- -5px (the witness of D13): mantissa 0xFFFFFB, radix 0, unit 0
+example : complexNum 0xFFFFFB00 = -5 ∧ complexDen 0xFFFFFB00 = 1
+    ∧ Spec.ResValue.dimensionUnits[unit 0xFFFFFB00]? = some "px" := by decide
+example : formatValue (fun _ => "") TYPE_DIMENSION 0xFFFFFB00 = .ok "-5.000000px" := by rfl
+-- mantissa 0x7FFFFF at radix 1 (16p7): 65535.9921875 → tie-free rounding to 65535.992188
+example : formatValue (fun _ => "") TYPE_DIMENSION 0x7FFFFF10 = .ok "65535.992188px" := by rfl
+-- 1/128 = 0.0078125 is an exact tie at the sixth decimal: half-even gives …12
+example : formatValue (fun _ => "") TYPE_DIMENSION 0x00000110 = .ok "0.007812px" := by rfl
+example : 2 * (1 * 1000000 % 128) = 128 := by decide
+example : formatValue (fun _ => "") TYPE_FRACTION 0x7FFFFF31 = .ok "99.999988%p" := by rfl
+example : Spec.ResValue.dimensionUnits[unit 0x00000507]? = none := by decide
+example : kind 0x13 = .intDec ∧ kind 0x1d = .color ∧ kind 7 = .none := by decide
+example : formatValue (fun _ => "") TYPE_INT_DEC 0xFFFFFFFF = .ok "-1" := by rfl
+example : isFramework 0x01020002 ∧ ¬ isFramework 0x7F020002 := by unfold isFramework; omega
+example : binary32 0x3F800000 = some (false, 2 ^ 23, 2 ^ 23) := by decide
+example : formatValue (fun _ => "") TYPE_FLOAT 0xBF800000 = .ok "-1.000000" := by rfl
 
 end AgVerif.C27
